@@ -731,6 +731,10 @@ pub(crate) fn convert_group(
     };
 
     let abs_transform = parent.abs_transform.pre_concat(transform);
+    if !abs_transform.is_finite() {
+        // Like an element with an invalid transform, it cannot be rendered.
+        return None;
+    }
     let dummy = Rect::from_xywh(0.0, 0.0, 0.0, 0.0).unwrap();
     let mut g = Group {
         id,
